@@ -61,13 +61,22 @@ pub fn make_file(rng: &mut Rng, big: bool) -> Option<TestFile> {
         let frames = frames.min(if big { 30000 } else { 6000 }).max(1);
         let mut r2 = Rng::new(rng.next());
         let pcm = flacref::pcm::generate(flacref::pcm::Signal::PositionCoded, cfg.channels as usize, cfg.bps, frames, &mut r2);
-        let bytes = encode(&cfg, Front::Sample, &pcm).ok()?;
+        let mut bytes = encode(&cfg, Front::Sample, &pcm).ok()?;
+        // a third of these files get their seek table from `generate_seektable` (installed with
+        // `update_file`), the documented way to add one afterwards: readers then seek by its points
+        let mut regenerated = "";
+        if rng.chance(1, 3) {
+            if let Some(b) = regenerate_table(&bytes, rng) {
+                bytes = b;
+                regenerated = " table=generate_seektable";
+            }
+        }
         let d = decode_file(&bytes, &Rules::LENIENT).ok()?;
         if d.interleaved() != pcm {
             return None;
         }
         Some(TestFile {
-            label: format!("crate-encoded ch{} bps{} bs{} seek {:?} frames {}", cfg.channels, cfg.bps, cfg.block_size, cfg.seek, frames),
+            label: format!("crate-encoded ch{} bps{} bs{} seek {:?}{regenerated} frames {}", cfg.channels, cfg.bps, cfg.block_size, cfg.seek, frames),
             channels: cfg.channels as usize,
             bps: cfg.bps,
             pcm,
@@ -112,6 +121,28 @@ pub fn make_file(rng: &mut Rng, big: bool) -> Option<TestFile> {
             bytes: g.bytes,
         })
     }
+}
+
+fn regenerate_table(bytes: &[u8], rng: &mut Rng) -> Option<Vec<u8>> {
+    use flac_codec::encode::{generate_seektable, SeekTableInterval};
+    use flac_codec::metadata::{self, BlockList};
+    let iv = if rng.chance(2, 3) { SeekTableInterval::Frames(std::num::NonZero::new(rng.usize(1, 4))?) } else { SeekTableInterval::Seconds(std::num::NonZero::new(1u8)?) };
+    mon::guard(|| {
+        let table = generate_seektable(Cursor::new(bytes), iv).ok()?;
+        let mut orig = crate::io::Mem::with_data(bytes.to_vec());
+        let mut rb = crate::io::Mem::new();
+        let rebuilt = {
+            let rbr = &mut rb;
+            metadata::update_file(&mut orig, move || Ok(rbr), |bl: &mut BlockList| -> Result<(), flac_codec::Error> {
+                bl.insert(table);
+                Ok(())
+            })
+            .ok()?
+        };
+        Some(if rebuilt { rb.data } else { orig.data })
+    })
+    .ok()
+    .flatten()
 }
 
 fn pick_target(rng: &mut Rng, f: &TestFile, unit_per_frame: u64) -> u64 {
@@ -160,6 +191,16 @@ pub fn random_history(rng: &mut Rng, f: &TestFile, seekable: bool, byte_reader: 
     ops
 }
 
+thread_local! {
+    /// set while a history runs on a source that fails one read (transient I/O error): an error
+    /// returned by the reader is then legitimate, leaves the position unspecified, and the history
+    /// goes on - the next successful seek must land exactly again
+    static FLAKY: std::cell::Cell<bool> = const { std::cell::Cell::new(false) };
+}
+fn flaky() -> bool {
+    FLAKY.with(|f| f.get())
+}
+
 pub struct Outcome {
     pub divergence: Option<String>,
     pub successful_seek_then_data: u32,
@@ -177,6 +218,7 @@ pub fn run_sample<R: Read + Seek>(src: R, f: &TestFile, ops: &[Op], seekable: bo
     let mut out = Outcome { divergence: None, successful_seek_then_data: 0, failed_seeks: 0, items_checked: 0, reached_eos: false };
     let mut rd = match if seekable { FlacSampleReader::new_seekable(src) } else { FlacSampleReader::new(src) } {
         Ok(r) => r,
+        Err(_) if flaky() => return out,
         Err(e) => {
             out.divergence = Some(format!("open failed: {e:?}"));
             return out;
@@ -212,6 +254,10 @@ pub fn run_sample<R: Read + Seek>(src: R, f: &TestFile, ops: &[Op], seekable: bo
                         cur = Some(c + k);
                     }
                     Err(e) => {
+                        if flaky() {
+                            cur = None;
+                            continue;
+                        }
                         out.divergence = diverge(step, op, format!("error {e:?} at model position {c}"));
                         return out;
                     }
@@ -222,6 +268,10 @@ pub fn run_sample<R: Read + Seek>(src: R, f: &TestFile, ops: &[Op], seekable: bo
                 let got: Vec<i32> = match rd.fill_buf() {
                     Ok(b) => b.to_vec(),
                     Err(e) => {
+                        if flaky() {
+                            cur = None;
+                            continue;
+                        }
                         out.divergence = diverge(step, op, format!("error {e:?} at model position {c}"));
                         return out;
                     }
@@ -264,7 +314,7 @@ pub fn run_sample<R: Read + Seek>(src: R, f: &TestFile, ops: &[Op], seekable: bo
                         after_seek = true;
                     }
                     Err(e) => {
-                        if seekable && t <= total {
+                        if seekable && t <= total && !flaky() {
                             out.divergence = diverge(step, op, format!("seek to {t} (<= {total}) failed: {e:?}"));
                             return out;
                         }
@@ -291,6 +341,10 @@ pub fn run_sample<R: Read + Seek>(src: R, f: &TestFile, ops: &[Op], seekable: bo
                         cur = Some(model.len());
                     }
                     Err(e) => {
+                        if flaky() {
+                            cur = None;
+                            continue;
+                        }
                         out.divergence = diverge(step, op, format!("error {e:?} at model position {c}"));
                         return out;
                     }
@@ -325,6 +379,7 @@ pub fn run_sample<R: Read + Seek>(src: R, f: &TestFile, ops: &[Op], seekable: bo
                         out.items_checked += v.len() as u64;
                         out.reached_eos = true;
                     }
+                    Err(_) if flaky() => {}
                     Err(e) => out.divergence = diverge(step, op, format!("error {e}")),
                 }
                 return out;
@@ -339,6 +394,7 @@ pub fn run_channel<R: Read + Seek>(src: R, f: &TestFile, ops: &[Op], seekable: b
     let mut out = Outcome { divergence: None, successful_seek_then_data: 0, failed_seeks: 0, items_checked: 0, reached_eos: false };
     let mut rd = match if seekable { FlacChannelReader::new_seekable(src) } else { FlacChannelReader::new(src) } {
         Ok(r) => r,
+        Err(_) if flaky() => return out,
         Err(e) => {
             out.divergence = Some(format!("open failed: {e:?}"));
             return out;
@@ -357,6 +413,10 @@ pub fn run_channel<R: Read + Seek>(src: R, f: &TestFile, ops: &[Op], seekable: b
                     let b = match rd.fill_buf() {
                         Ok(b) => b,
                         Err(e) => {
+                            if flaky() {
+                                cur = None;
+                                continue;
+                            }
                             out.divergence = diverge(step, op, format!("error {e:?} at frame {c}"));
                             return out;
                         }
@@ -410,7 +470,7 @@ pub fn run_channel<R: Read + Seek>(src: R, f: &TestFile, ops: &[Op], seekable: b
                     after_seek = true;
                 }
                 Err(e) => {
-                    if seekable && t as usize <= total {
+                    if seekable && t as usize <= total && !flaky() {
                         out.divergence = diverge(step, op, format!("seek to {t} (<= {total}) failed: {e:?}"));
                         return out;
                     }
@@ -479,6 +539,7 @@ pub fn run_byte<R: Read + Seek, E: flac_codec::byteorder::Endianness>(src: R, f:
     let r: Result<FlacByteReader<R, E>, _> = if seekable { FlacByteReader::new_seekable(src) } else { FlacByteReader::new(src) };
     let mut rd = match r {
         Ok(r) => r,
+        Err(_) if flaky() => return out,
         Err(e) => {
             out.divergence = Some(format!("open failed: {e:?}"));
             return out;
@@ -515,6 +576,10 @@ pub fn run_byte<R: Read + Seek, E: flac_codec::byteorder::Endianness>(src: R, f:
                         cur = Some((c + k) as u64);
                     }
                     Err(e) => {
+                        if flaky() {
+                            cur = None;
+                            continue;
+                        }
                         out.divergence = diverge(step, op, format!("error {e:?} at byte {c}"));
                         return out;
                     }
@@ -525,6 +590,10 @@ pub fn run_byte<R: Read + Seek, E: flac_codec::byteorder::Endianness>(src: R, f:
                 let got: Vec<u8> = match rd.fill_buf() {
                     Ok(b) => b.to_vec(),
                     Err(e) => {
+                        if flaky() {
+                            cur = None;
+                            continue;
+                        }
                         out.divergence = diverge(step, op, format!("error {e:?} at byte {c}"));
                         return out;
                     }
@@ -578,7 +647,7 @@ pub fn run_byte<R: Read + Seek, E: flac_codec::byteorder::Endianness>(src: R, f:
                         after_seek = true;
                     }
                     Err(e) => {
-                        if legal && !(matches!(op, Op::SeekEnd(_)) && !f.total_known) {
+                        if legal && !(matches!(op, Op::SeekEnd(_)) && !f.total_known) && !flaky() {
                             out.divergence = diverge(step, op, format!("legal seek to {want:?} failed: {e:?}"));
                             return out;
                         }
@@ -621,6 +690,7 @@ pub fn run_byte<R: Read + Seek, E: flac_codec::byteorder::Endianness>(src: R, f:
                             }
                         }
                     }
+                    Err(_) if flaky() => {}
                     Err(e) => out.divergence = diverge(step, op, format!("error {e:?}")),
                 }
                 return out;
@@ -643,6 +713,10 @@ pub fn run_byte<R: Read + Seek, E: flac_codec::byteorder::Endianness>(src: R, f:
                         cur = Some(len);
                     }
                     Err(e) => {
+                        if flaky() {
+                            cur = None;
+                            continue;
+                        }
                         out.divergence = diverge(step, op, format!("error {e:?} at byte {c}"));
                         return out;
                     }
@@ -667,6 +741,9 @@ pub enum Source {
     /// the FLAC stream starts `n` bytes into the underlying reader (foreign data in front of
     /// it, e.g. an ID3v2 tag the caller skipped); the reader is handed over positioned at `n`
     Prefixed(usize),
+    /// a seekable source that hands out at most 64 bytes per read and whose k-th read fails once
+    /// with an I/O error (then works again)
+    Flaky(u64),
     Chunks(Vec<usize>),
     Split(usize),
 }
@@ -696,6 +773,7 @@ pub fn run_history(rep: &mut Report, prop: &str, f: &TestFile, which: Which, see
     rep.count("source", match source {
         Source::Cursor => "cursor",
         Source::Prefixed(_) => "cursor-with-foreign-prefix",
+        Source::Flaky(_) => "seekable-with-one-failing-read",
         Source::Chunks(_) => "chunked",
         Source::Split(_) => "two-chunk-split",
     });
@@ -723,6 +801,15 @@ pub fn run_history(rep: &mut Report, prop: &str, f: &TestFile, which: Which, see
                 let mut c = Cursor::new(v);
                 c.set_position(*n as u64);
                 go!(c)
+            }
+            Source::Flaky(k) => {
+                let mut m = crate::io::Mem::with_data(bytes);
+                m.max_read = 64;
+                m.fault = Some(crate::io::Fault { op: crate::io::Op::Read, index: *k, mode: crate::io::FaultMode::Transient });
+                FLAKY.with(|f| f.set(true));
+                let o = go!(m);
+                FLAKY.with(|f| f.set(false));
+                o
             }
             Source::Chunks(plan) => go!(Chunked::new(bytes, plan.clone())),
             Source::Split(at) => {
@@ -799,7 +886,11 @@ pub fn run_c06(ctx: &Ctx, rep: &mut Report) {
             for _ in 0..3 {
                 let n = rng.usize(5, 60);
                 let ops = random_history(&mut rng, &f, true, matches!(which, Which::ByteLE | Which::ByteBE), n);
-                let source = if rng.chance(1, 3) { Source::Prefixed(*rng.pick(&[1usize, 10, 128, 4099])) } else { Source::Cursor };
+                let source = match rng.below(6) {
+                    0 | 1 => Source::Prefixed(*rng.pick(&[1usize, 10, 128, 4099])),
+                    2 => Source::Flaky(rng.below(120)),
+                    _ => Source::Cursor,
+                };
                 run_history(rep, "C06", &f, which, true, &source, &ops);
             }
             // a reader opened with new() must refuse to seek
@@ -845,10 +936,64 @@ pub fn run_c07(ctx: &Ctx, rep: &mut Report) {
                 let ops = vec![Op::FillConsume(rng.usize(1, 9)), Op::Read(rng.usize(1, 9)), Op::Drain((at % 3) as u8)];
                 run_history(rep, "C07", &f, which, false, &Source::Split(at), &ops);
             }
+            stream_reader_splits(rep, &f);
         }
     }
     rep.count_n("files", "n", files);
     rep.count_n("files_with_every_split_point", "n", exhaustive_split_files);
+}
+
+/// The raw-frame reader over the frames of a small file, for EVERY way a buffered source can
+/// split them into two reads (and for 1-byte reads): every frame exactly once, in order.
+fn stream_reader_splits(rep: &mut Report, f: &TestFile) {
+    use flac_codec::decode::FlacStreamReader;
+    let Ok(d) = decode_file(&f.bytes, &Rules::LENIENT) else { return };
+    if d.frames.is_empty() || d.frames.iter().any(|fr| fr.rate_code == 0 || fr.bps_code == 0 || fr.rate == 0) {
+        return;
+    }
+    let raw = f.bytes[d.frames_start..d.end.min(f.bytes.len())].to_vec();
+    let run = |rep: &mut Report, label: String, src: Box<dyn BufRead>| {
+        rep.eval();
+        rep.count("reader", "StreamReader(raw frames)");
+        let r = mon::guard(move || {
+            let mut rd = FlacStreamReader::new(src);
+            let mut all: Vec<i32> = vec![];
+            let mut frames = 0usize;
+            loop {
+                match rd.read() {
+                    Ok(fr) => {
+                        all.extend_from_slice(fr.samples);
+                        frames += 1;
+                    }
+                    Err(flac_codec::Error::Io(e)) if e.kind() == std::io::ErrorKind::UnexpectedEof => break Ok((all, frames)),
+                    Err(e) => break Err(crate::api::show(&e)),
+                }
+                if frames > 100000 {
+                    break Err("runaway".into());
+                }
+            }
+        });
+        let replay = || J::obj().set("file", f.label.as_str()).set("raw_frames", J::hex(&raw)).set("source", label.as_str());
+        match r {
+            Err(p) => rep.violation("panic", p.signature(), format!("FlacStreamReader over {label}: {} at {}", p.msg, p.location), replay()),
+            Ok(Err(e)) => rep.violation("history-divergence", "C07:StreamReader:error", format!("FlacStreamReader over {label} on {}: {e}", f.label), replay()),
+            Ok(Ok((all, frames))) => {
+                if all != f.pcm {
+                    rep.violation("history-divergence", "C07:StreamReader:frames-lost-or-repeated", format!("FlacStreamReader over {label} on {}: {frames} frames / {} samples returned, the stream has {} frames / {} samples", f.label, all.len(), d.frames.len(), f.pcm.len()), replay());
+                } else {
+                    rep.count_n("items_checked", "n", all.len() as u64);
+                }
+            }
+        }
+    };
+    for at in 0..=raw.len() {
+        let src = std::io::BufReader::new(SplitSource { data: raw.clone(), pos: 0, split: at });
+        run(rep, format!("two reads split at byte {at}"), Box::new(src));
+    }
+    let src = std::io::BufReader::new(Chunked::new(raw.clone(), vec![1]));
+    run(rep, "1-byte reads".into(), Box::new(src));
+    let src = std::io::BufReader::new(Chunked::new(raw.clone(), vec![1, 2, 3, 5, 7]));
+    run(rep, "1,2,3,5,7-byte reads".into(), Box::new(src));
 }
 
 fn replay(ctx: &Ctx, rep: &mut Report, prop: &str) {
@@ -883,6 +1028,8 @@ fn replay(ctx: &Ctx, rep: &mut Report, prop: &str) {
     } else if src.starts_with("Chunks(") {
         let inner = src.trim_start_matches("Chunks([").trim_end_matches("])");
         Source::Chunks(inner.split(',').filter_map(|x| x.trim().parse().ok()).collect())
+    } else if src.starts_with("Flaky(") {
+        Source::Flaky(src.trim_start_matches("Flaky(").trim_end_matches(')').parse().unwrap_or(0))
     } else if src.starts_with("Prefixed(") {
         Source::Prefixed(src.trim_start_matches("Prefixed(").trim_end_matches(')').parse().unwrap_or(0))
     } else {
